@@ -173,6 +173,9 @@ func parseHeader(c *Contract, text string) error {
 		name := strings.Fields(rest)[0]
 		c.Key = c.Pkg + "." + name
 		c.Name = name
+		if strings.Contains(name, "#") {
+			c.Trusted = true // abstract contract of a callback parameter: nothing to verify
+		}
 	case "extern":
 		// extern func <pkgpath>.<Name> | <pkgpath>.<Type>.<Name>
 		rest = strings.TrimSpace(strings.TrimPrefix(rest, "func"))
